@@ -304,8 +304,8 @@ Proof.
     set (x := N.of_nat n + 16) in *.
     assert (16 <= x) by (unfold x; lia).
     replace (N.succ x) with (x + 1) by lia.
-    assert (16 * x <= x * x) as H1 by nia.
-    assert (16 * (x * x) <= x * x * x) as H2 by nia.
+    assert (16 * x <= x * x) as H1 by (apply N.mul_le_mono_r; assumption).
+    assert (16 * (x * x) <= x * (x * x)) as H2 by (apply N.mul_le_mono_r; assumption).
     assert ((x + 1) * (x + 1) * (x + 1) = x * x * x + 3 * (x * x) + 3 * x + 1) as H3 by lia.
     rewrite H3. lia.
 Qed.
@@ -335,7 +335,9 @@ Qed.
 Definition quad (c s : N) : N := c * (s * s) + c.
 
 Lemma quad_mono : forall c s s', s <= s' -> quad c s <= quad c s'.
-Proof. intros. unfold quad. nia. Qed.
+Proof.
+  intros. unfold quad. apply N.add_le_mono_r. apply N.mul_le_mono_l. apply N.mul_le_mono; assumption.
+Qed.
 
 (* date +/- n days: no bound polynomial (here: quadratic, any constant) in the
    size of n covers the gap *)
@@ -415,7 +417,7 @@ Proof.
   assert (forall n body, polls (repeat_trace n (Poll :: body)) = N.of_nat n * (1 + polls body)) as R.
   { clear. induction n as [|n IH]; intros; cbn [repeat_trace]; [reflexivity|].
     assert (forall a b, polls (a ++ b) = polls a + polls b) as A.
-    { clear. induction a as [|[|k] a IH]; intros; cbn; auto. rewrite IH. lia. }
+    { clear. induction a as [|[|k] a IH]; intros; cbn [polls app]; [lia | rewrite IH; lia | apply IH]. }
     change ((Poll :: body) ++ repeat_trace n (Poll :: body)) with (Poll :: (body ++ repeat_trace n (Poll :: body))).
     cbn [polls]. rewrite A, IH, Nat2N.inj_succ. lia. }
   rewrite R. cbn [polls]. rewrite N2Nat.id. lia.
